@@ -146,12 +146,18 @@ def run_group(verif, repo, group, pid, tier, scratch):
 
     def one(h):
         th = int(h.get("timeout_s", timeout))
+        # own process group, so that a timeout kills cargo-kani, kani-driver, goto-* and cbmc together
+        pr = subprocess.Popen(base + ["--harness", h["name"]], cwd=crate_dir, env=env, stdout=subprocess.PIPE,
+                              stderr=subprocess.STDOUT, text=True, start_new_session=True)
         try:
-            p = subprocess.run(base + ["--harness", h["name"]], cwd=crate_dir, env=env, capture_output=True,
-                               text=True, timeout=th)
-            out = p.stdout + "\n" + p.stderr
+            out, _ = pr.communicate(timeout=th)
         except subprocess.TimeoutExpired:
-            subprocess.run(["pkill", "-f", "--", "--function .*" + h["name"]], capture_output=True)
+            import signal
+            try:
+                os.killpg(pr.pid, signal.SIGKILL)
+            except ProcessLookupError:
+                pass
+            pr.wait()
             return h, None, f"timeout after {th}s"
         with open(os.path.join(scratch, f"kani-{h['name']}.log"), "w") as f:
             f.write(out)
@@ -178,6 +184,11 @@ def run_group(verif, repo, group, pid, tier, scratch):
                 row["result"] = "UNDETERMINED"
             elif row.get("playback"):
                 row["playback_result"] = run_playback(crate_dir, env, h, row["playback"], gd)
+                # a counterexample that does not fail when replayed on the native code is spurious
+                # (tool imprecision): undecided, never an alarm
+                if re.search(r"test result: ok\. 1 passed", row["playback_result"] or ""):
+                    row["result"] = "UNDETERMINED"
+                    row["log_tail"] = "kani counterexample did not reproduce natively (spurious)\n" + (row.get("log_tail") or "")
         res["harnesses"].append(row)
     return res
 
